@@ -50,6 +50,20 @@ class C03(H.Oracle):
             return
         self.last = (img, data)
 
+    def on_end(self, ctx):
+        # "every image written": also the one modify_file_in_place leaves on the disk (a file with an ISO9660 name, the
+        # Joliet records of its content must follow)
+        def check_image(ctx_, data):
+            img = dec_iso.decode(data)
+            for a in img.anoms:
+                ctx_.violate((a.rule,), repr(a), fatal=False)
+            if not img.pvds or any(not a.rule.startswith('ecma119.9.3/order') and not a.rule.startswith('ecma119.6.7.1/duplicate-pvd-differs') for a in img.anoms):
+                return
+            mm = decview.compare_with_model(img, data, ctx_.model, ('iso', 'joliet'))
+            if mm:
+                ctx_.violate(('decoded-view-after-in-place-modification',) + O.mismatch_sig(mm[0]), 'path=%r expected=%r decoded=%r' % (mm[0][2], mm[0][3], mm[0][4]))
+        H.inplace_epilogue(ctx, 'iso', check_image, rate=0.4)
+
     def on_reopen(self, ctx):
         # "The tree and file contents recovered that way equal what the library API reports for the same image"
         if getattr(self, 'last', None) is None:
